@@ -132,6 +132,9 @@ def _run_variant(args):
             if variant.expect is None:
                 return (name, "problem", "benign twin made the analysis fail: %s" % e)
             return (name, "detected-as-analysis-error", str(e))
+        except Exception as e:      # an internal error of a checker is a defect of the machinery, whatever the variant
+            import traceback
+            return (name, "problem", "internal error: %s: %s" % (type(e).__name__, traceback.format_exc().splitlines()[-3:]))
         idents = {f.ident for f in run.findings}
         new = idents - set(base_idents)
         if variant.expect is None:
